@@ -106,7 +106,9 @@ class PlanConfig:
             self.async_num = 8
             self.fault_num = 8
             self.src_fault_num = 0
-            self.iter_num = 0
+            # lists over (async) iterators too: a cancellation landing in the middle of an
+            # iteration must take the awaitable items already collected with it
+            self.iter_num = 4
             self.slowc_num = 5
 
 
